@@ -10,6 +10,8 @@ import (
 	"fmt"
 	"io"
 	"net"
+	"net/http"
+	"net/http/httptest"
 	"os"
 	"strings"
 	"sync"
@@ -19,6 +21,7 @@ import (
 	"github.com/creachadair/jrpc2"
 	"github.com/creachadair/jrpc2/channel"
 	"github.com/creachadair/jrpc2/handler"
+	"github.com/creachadair/jrpc2/jhttp"
 	"github.com/creachadair/jrpc2/server"
 )
 
@@ -27,6 +30,7 @@ var probes = map[string]func() string{
 	"netacc-ctx-between-accepts": func() string { return probeNetAccepter("between") },
 	"netacc-ctx-during-accept":   func() string { return probeNetAccepter("during") },
 	"wire-concurrent-pushes":     probeConcurrentPushes,
+	"bridge-dead-context-post":   probeBridgeDeadContext,
 }
 
 func TestProbes(t *testing.T) {
@@ -244,4 +248,70 @@ func clip(b []byte) string {
 		return string(b[:400]) + "..."
 	}
 	return string(b)
+}
+
+// probeBridgeDeadContext: a POST whose HTTP request context has already ended (the caller hung up while the body
+// was read, a timeout middleware fired) is still a POST with calls in its body: it is answered with status 200 and
+// one response object per call bearing the caller's id - the handler's outcome, or the cancellation error if the
+// bridge's client gave up first - and with 204 when it holds only notifications; never with an error status.
+func probeBridgeDeadContext() string {
+	b := jhttp.NewBridge(handler.Map{
+		"echo": func(_ context.Context, req *jrpc2.Request) (any, error) { return req.ParamString(), nil },
+	}, nil)
+	defer b.Close()
+	dead, cancel := context.WithCancel(context.Background())
+	cancel()
+	for i, c := range []struct {
+		body   string
+		status int
+		ids    []string
+	}{
+		{`{"jsonrpc":"2.0","id":"q-7","method":"echo","params":[1]}`, 200, []string{`"q-7"`}},
+		{`{"jsonrpc":"2.0","method":"echo","params":[2]}`, 204, nil},
+		{`[{"jsonrpc":"2.0","id":5,"method":"echo"},{"jsonrpc":"2.0","method":"echo"},{"jsonrpc":"2.0","id":"x","method":"nosuch"}]`, 200, []string{"5", `"x"`}},
+	} {
+		for _, ctx := range []context.Context{context.Background(), dead} {
+			hr := httptest.NewRequest("POST", "/rpc", strings.NewReader(c.body)).WithContext(ctx)
+			hr.Header.Set("Content-Type", "application/json")
+			rec := httptest.NewRecorder()
+			done := make(chan struct{})
+			go func() { defer close(done); b.ServeHTTP(rec, hr) }()
+			select {
+			case <-done:
+			case <-time.After(10 * time.Second):
+				return fmt.Sprintf("FAIL\tPOST %d (dead context: %v) was not answered", i, ctx == dead)
+			}
+			if rec.Code != c.status {
+				return fmt.Sprintf("FAIL\tPOST %d (dead context: %v) answered with status %d, want %d (body %q)", i, ctx == dead, rec.Code, c.status, clip(rec.Body.Bytes()))
+			}
+			if c.status == http.StatusNoContent {
+				if rec.Body.Len() != 0 {
+					return fmt.Sprintf("FAIL\tPOST %d: 204 with a body", i)
+				}
+				continue
+			}
+			var objs []map[string]json.RawMessage
+			body := rec.Body.Bytes()
+			if len(c.ids) == 1 {
+				var o map[string]json.RawMessage
+				if json.Unmarshal(body, &o) != nil {
+					return fmt.Sprintf("FAIL\tPOST %d: body is not one JSON object: %q", i, clip(body))
+				}
+				objs = append(objs, o)
+			} else if json.Unmarshal(body, &objs) != nil {
+				return fmt.Sprintf("FAIL\tPOST %d: body is not an array of objects: %q", i, clip(body))
+			}
+			if len(objs) != len(c.ids) {
+				return fmt.Sprintf("FAIL\tPOST %d (dead context: %v): %d response objects, want %d", i, ctx == dead, len(objs), len(c.ids))
+			}
+			for k, o := range objs {
+				_, hasR := o["result"]
+				_, hasE := o["error"]
+				if string(o["id"]) != c.ids[k] || hasR == hasE {
+					return fmt.Sprintf("FAIL\tPOST %d (dead context: %v): response %d is %q, want id %s and exactly one of result/error", i, ctx == dead, k, clip(body), c.ids[k])
+				}
+			}
+		}
+	}
+	return "ok"
 }
